@@ -291,6 +291,27 @@ endmodule
   buf b0 (z, nq1);
 endmodule
 """, [fd], "s"
+    yield "nets-named-like-the-value-part-of-a-constant", """module t (d0, d1, b0, h1, s, y, z, p0, p1);
+  input d0, d1, b0, h1, s;
+  output y, z, p0, p1;
+  wire ns, t0, t1;
+  assign p0 = d0;
+  assign p1 = d1;
+  not n0 (ns, s);
+  and a0 (t0, p0, ns, b0);
+  and a1 (t1, p1, s, h1);
+  or o0 (y, t0, t1);
+  assign z = b0;
+endmodule
+""", [], "t"
+    yield "one-net-on-two-input-pins-of-an-instance", """module s (ck, en, y);
+  input ck, en;
+  output y;
+  wire q0;
+  fd2 r0 (.CP(ck), .D(en), .CD(en), .Q(q0), .QN());
+  buf b0 (y, q0);
+endmodule
+""", [RefBlackBox("fd2", ["CP", "D", "CD"], ["Q", "QN"])], "s"
     yield "net-named-tie1-input", """module t (tie1, a, y);
   input tie1, a;
   output y;
@@ -367,6 +388,22 @@ def run(chk):
             if prob is None and r[1].name != full.name:
                 prob = {"problem": "module name differs", "fast": r[1].name, "full": full.name}
         chk.ob("C14.A.agreement", name, prob is None, file=FILE, func="fast_parse_verilog_netlist", line=fi.node.lineno, fact=prob or {"nodes": len(full.nodes())},
+               expect="same inputs, outputs, blackbox pins and identical graph apart from constant node names")
+    # the same agreement over the repository's OWN Circuit class (the full parser builds its result through Circuit.add /
+    # add_blackbox / relabel ..., the fast parser writes the graph directly) for the netlists with blackboxes / constants
+    from ..pkgenv import to_ref
+
+    PFS = Package(repo, full_stack=True)
+    for name, text, bbs, mname in [t for t in texts if t[2] or "tie" in t[0] or "constant" in t[0]]:
+        n += 1
+        try:
+            full = to_ref(full_parse(PFS, text, bbs))
+        except ParseError as e:
+            chk.ob("C14.A.agreement", f"{name}@full-stack", False, file="parsing/verilog.py", func="parse_verilog_netlist", fact={"problem": "the full parser rejects a conforming netlist", "error": str(e)[:160]})
+            continue
+        r = PFS.call(FILE, "fast_parse_verilog_netlist", text, bbs)
+        prob = {"problem": "fast parser raises", "result": str(r)[:160]} if r[0] != "return" else compare(full, to_ref(r[1]))
+        chk.ob("C14.A.agreement", f"{name}@full-stack", prob is None, file=FILE, func="fast_parse_verilog_netlist", line=fi.node.lineno, fact=prob or {"nodes": len(full.nodes())},
                expect="same inputs, outputs, blackbox pins and identical graph apart from constant node names")
     # a rejected netlist must not influence the next parse (no state carried between calls)
     bad_text = "module b (a, y);\n  input a;\n  output y;\n  wire w;\n  not n0 (w, a);\n  mystery u0 (.d(w), .q(y));\nendmodule\n"
